@@ -39,8 +39,9 @@ def gopher_url(typ, selector, host, port):
         typ.encode() + selector, safe="/").encode()
 
 
-def view_gopher(menu):
+def view_gopher(menu, port=None):
     """canonical (kind, name, target) sequence of a parsed Gopher menu"""
+    port = PORT if port is None else port
     out = []
     for m in menu:
         if m["type"] == "i":
@@ -49,7 +50,7 @@ def view_gopher(menu):
         mu = re.match(rb"/?URL:(.+)$", m["selector"], re.S)
         if mu:
             out.append(("url", name_norm(m["name"]), mu.group(1)))
-        elif m["host"] == SERVER and m["port"] == PORT:
+        elif m["host"] == SERVER and m["port"] == port:
             out.append(("link", name_norm(m["name"]), m["selector"]))
         else:
             out.append(("url", name_norm(m["name"]), gopher_url(m["type"], m["selector"], m["host"], m["port"])))
@@ -130,14 +131,31 @@ def view_wml(body):
     return out
 
 
-def view_page(proto, resp):
+def canon_self_urls(view, port):
+    """a gopher:// URL that names this very server (same host and port) is the same target as the
+    local link to that selector: equivalent link targets"""
+    pre = b"gopher://" + SERVER + b":" + str(port).encode() + b"/"
+    out = []
+    for kind, name, target in view:
+        if kind == "url" and target is not None and target.startswith(pre) and len(target) > len(pre):
+            out.append(("link", name, urllib.parse.unquote_to_bytes(target[len(pre) + 1:])))
+        else:
+            out.append((kind, name, target))
+    return out
+
+
+def view_page(proto, resp, port=None):
     """(kind, name, target) sequence a client of `proto` sees in a directory page; raises Malformed"""
+    return canon_self_urls(_view_page(proto, resp, port), PORT if port is None else port)
+
+
+def _view_page(proto, resp, port=None):
     v = V.validate(proto, resp)
     if v["kind"] != "success":
         raise V.Malformed("not a success response")
     body = v["body"]
     if proto in ("gopher", "sgopher", "gopherplus", "sgopherplus"):
-        return view_gopher(V.parse_gopher_menu(body))
+        return view_gopher(V.parse_gopher_menu(body), port)
     if proto in ("http", "https"):
         return view_html(body)
     if proto == "wap":
